@@ -7,13 +7,20 @@ LEVEL = "model_checking"
 
 def run(ctx: Ctx) -> None:
     agg = sweep(ctx, {"C05"})
+    from mc import gen_sweep
+    gen = gen_sweep.sweep(ctx, {"C05"})
     ctx.coverage.update(
-        states=agg["words"], transitions=agg["words"], traces_validated_against_impl=agg["pref_members"],
-        samples=agg["samples"], exhaustive=agg["skipped_words"] == 0,
+        states=agg["words"] + gen["distinct_trees"], transitions=agg["words"] + gen["runs"],
+        traces_validated_against_impl=agg["pref_members"] + gen["roundtrips"],
+        samples=agg["samples"] + gen["samples"], exhaustive=agg["skipped_words"] == 0 and gen["capped_pairs"] == 0,
+        generator_roundtrip={k: v for k, v in gen.items() if k != "samples"},
         grammars=agg["grammars"], words=agg["words"], members=agg["members"], members_in_class=agg["pref_members"],
         skipped_words_after_budget_hits=agg["skipped_words"], spec_errors=agg["spec_errors"], parse_errors=agg["errors"],
         rule="every word w over the alphabet up to the length bound with a reference derivation in which each regex "
              "leaf takes exactly the match re.match prefers at its position must yield >= 1 tree",
     )
+    if gen["capped_pairs"]:
+        ctx.cap(f"generator decision tree capped at {gen_sweep.RUN_CAP} executions for {gen['capped_pairs']} (grammar, budget) pairs; "
+                f"{gen['parse_skipped']} generated words not parsed back (diverging grammar class, > 24 symbols, or parse budget)")
     if agg["skipped_words"]:
         ctx.cap(f"{agg['skipped_words']} words skipped on grammars whose parse exceeded the admission budget twice (see C06)")
